@@ -23,6 +23,14 @@ NEEDS = {
  "c16-c": ("identity shuffle skips the copy *and* label-ordered input skips the rebuild", "≤1 bond or complete molecule in label order with an identity shuffle: the argument itself is returned; visible once the caller edits the result"),
  "c16-d": ("first seeded shuffle memoised with `lru_cache`; on a hit the RNG is not reseeded", "a cache hit, a retry (small symmetric molecule) and a different global RNG state"),
  "c16-e": ("as c16-b (independent rediscovery)", "as c16-b"),
+ "c14-l": ("invariant code of plain hydrogens shared through a lazily filled module-level cell", "the first hydrogen the process sees is an isotope or radical; every later molecule with plain H is then read differently"),
+ "c14-m": ("V3000 reader remembers the CTAB layout in two module globals, key stored before value", "two threads inside the V3000 reader on different molfiles; a switch in the one-line window between key and value store, then two more well-placed switches"),
+ "c14-n": ("V3000 atom-line keywords scanned from a `set` of the tokens", "an atom line with two tokens matching one keyword (`CHG=` and `EXACHG=`, a repeated property); two processes with different hash seeds"),
+ "c14-o": ("V3000 optional properties converted while iterating a `set` of keyword strings", "a rejected atom line with ≥2 malformed property tokens: which error is raised depends on the hash seed"),
+ "c12-f": ("as c12-a (independent rediscovery)", "as c12-a"),
+ "c12-g": ("own copy/relabel helpers that re-use the argument's per-bond attribute dicts", "caller edits a bond attribute of the result (or of the argument) after canonicalizing"),
+ "c16-f": ("single-pass permutation that pairs sorted labels with iteration-order labels", "argument whose iteration order differs from its label order (canonicalized graph)"),
+ "c16-g": ("retry loop re-shuffles `m_permu` in place; identity first shuffle returns `m` itself", "enforced molecule whose first shuffle is the identity: the caller's graph is relabelled in place"),
 }
 print("| seeded change | what it does | needs in order to manifest | tests / demo | reported by (quick tier, VERIF_SEED=1) |")
 print("|---|---|---|---|---|")
